@@ -2,7 +2,7 @@
 """Regenerates /verif/MANIFEST.json from checks.json (claimed checks) and not_applicable.json."""
 import json, os
 V = os.path.dirname(os.path.dirname(os.path.abspath(__file__)))
-checks = json.load(open(os.path.join(V, "checks.json")))
+checks = {f[:-5]: json.load(open(os.path.join(V, "checks", f))) for f in sorted(os.listdir(os.path.join(V, "checks"))) if f.endswith(".json")}
 props = [json.loads(l) for l in open(os.path.join(V, "properties.jsonl"))]
 na_reasons = json.load(open(os.path.join(V, "not_applicable.json")))
 hooks = json.load(open(os.path.join(V, "hooks.json")))
